@@ -10,3 +10,22 @@ MUST_REACH_WITHOUT_FLAG = [
     "FS_WRITE@cdd.shared.emit.file:file:open#0",
     "FS_WRITE@cdd.compound.exmod:_create_sqlalchemy_mod:os.mkdir#0",
 ]
+
+
+# --------------------------------------------------------------------------------------------------------------
+# E1 contract on relative_filename (cdd/shared/pkg_utils.py).  emit_file_on_hierarchy joins the output directory with
+# relative_filename(<module file>).  Whatever prefix it removes, what it returns must be a SUFFIX of the file name it was
+# given: then no component of the result can be `..`, so joined under the output directory it cannot climb out of it (an
+# absolute result -- returned unchanged for packages outside site-packages -- replaces the output directory altogether;
+# that case is covered by the bounded stand-in and discussed in DESIGN.md §10.8).
+from cddvc.symexec import Contract
+
+CONTRACTS = [
+    Contract(
+        "cdd.shared.pkg_utils:relative_filename",
+        params={"filename": "str", "remove_hints": "opaque"},
+        result="str",
+        pure_results={"get_python_lib": "str"},
+        ensures=["endswith(filename, result)"],
+    ),
+]
